@@ -36,26 +36,32 @@ def run(tier, seed):
     res = Result("C02", tier, seed)
     rng = random.Random(seed)
     thm = check_theorems("C02")
-    nruns = 20 if tier == "quick" else 120
+    nruns = 30 if tier == "quick" else 150
     cases, meta, bad = [], [], []
     for it in range(nruns):
         mname, x0, p0 = MODELS[it % len(MODELS)]
         integ = ["exp", "linear-rk4"][(it // len(MODELS)) % 2]      # every model with both integrators
         cls = [mudslide.TrajectorySH, mudslide.Ehrenfest, mudslide.TrajectoryCum, mudslide.AugmentedFSSH][it % 4]
-        model = M[mname]()
+        diab = (it % 5 == 3) and mname != "shin-metiu"       # diabatic representation: full symmetric H, zero couplings
+        model = M[mname](representation="diabatic") if diab else M[mname]()
+        if diab and len(x0) == 1:
+            x0 = [rng.uniform(-1.0, -0.2)]       # inside the coupling region, where the diabatic Hamiltonian is far from diagonal
         n = model.nstates()
-        if cls is mudslide.AugmentedFSSH and n != 2: cls = mudslide.TrajectorySH
+        if cls is mudslide.AugmentedFSSH and (n != 2 or diab): cls = mudslide.TrajectorySH
         kind = ["state", "pure-coherent", "mixed"][it % 3]
         dt = rng.choice([2.0, 5.0, 10.0]) if integ == "exp" else rng.choice([0.4, 0.8, 1.5])
         nsteps = rng.randint(10, 40) if integ == "exp" else rng.randint(30, 60)
         kw = dict(dt=dt, max_steps=nsteps, electronic_integration=integ, seed_sequence=rng.randrange(2 ** 31))
+        if diab:
+            kw["zeta_list"] = [2.0] * (nsteps + 5)     # no hops: the rescaling direction (derivative coupling) is the zero vector in the diabatic representation
+            if cls is mudslide.TrajectoryCum: cls = mudslide.TrajectorySH
         if cls is mudslide.AugmentedFSSH:
             kw["augmented_integration"] = "exp" if integ == "exp" else "rk4"   # the default (= electronic_integration) is not accepted for linear-rk4
         if kind == "state":
             tr = cls(model, x0, p0, rng.randrange(n), **kw); pure0 = True
         else:
             rho0 = rand_rho(rng, n, kind); tr = cls(model, x0, p0, rho0, state0=rng.randrange(n), **kw); pure0 = (kind == "pure-coherent")
-        info = dict(model=mname, cls=cls.__name__, integrator=integ, dt=dt, initial=kind, nstates=n)
+        info = dict(model=mname, cls=cls.__name__, integrator=integ, dt=dt, initial=kind, nstates=n, representation="diabatic" if diab else "adiabatic")
         recorded = []
         orig = tr.propagate_electronics
         def prop(le, te, dt_, tr=tr, orig=orig, recorded=recorded, integ=integ):
@@ -82,6 +88,7 @@ def run(tier, seed):
             f = validity(np.asarray(s["density_matrix"]), pure0 and not collapsed, tol=1e-9 if integ == "exp" else 1e-6)
             if f:
                 bad.append(dict(failed="density matrix stays " + f, case=dict(info, time=s["time"]))); break
+        res.count("representation/" + info["representation"] + "/" + integ)
         res.count("integrator/" + integ); res.count("initial/" + kind); res.count("nstates/%d" % n); res.count("class/" + cls.__name__)
         # oracle spec of eigh + model correspondence, a few steps per run
         for k in sorted(rng.sample(range(len(recorded)), min(len(recorded), 3 if tier == "quick" else 6))):
